@@ -175,7 +175,7 @@ def generate(ctx):
     # step sizes and radii over many more decades (dyadic scalings keep the exact model cheap)
     for K, eta, radius in ([(2, 2.0 ** -30, 1.0), (3, -2.0 ** 20, 1.0), (2, 1.0, 2.0 ** -10), (2, -1e6, 2.0 ** 10)] if quick else
                            [(2, 2.0 ** -30, 1.0), (3, -2.0 ** 20, 1.0), (2, 1.0, 2.0 ** -10), (2, -1e6, 2.0 ** 10), (3, 1e-6, 1.0), (5, 2.0 ** 30, 1.0),
-                            (3, -2.0 ** -30, 2.0 ** 20), (5, 2.0 ** 10, 2.0 ** -20), (1, 2.0 ** 20, 1.0), (4, 1e6, 1.0)]):     # K = 1 with eta = 2^30 makes I - HG exactly singular in float64 (LinAlgError in numpy itself): not an evaluable case
+                            (3, -2.0 ** -30, 2.0 ** 20), (5, 2.0 ** 10, 2.0 ** -20), (1, 2.0 ** 14, 1.0), (4, 1e6, 1.0)]):     # K = 1 with eta >= 2^18 makes I - HG exactly singular in float64 (LinAlgError in numpy itself): not an evaluable case
         cfg = {'b': _dyadic_boundaries(rng, K).tolist(), 'tref': (rng.integers(200 * 4, 300 * 4, size=K).astype(float) / 4).tolist(),
                'R': 287.0, 'kappa': 0.25, 'radius': radius}
         ctx.count('decades: eta=%g radius=%g' % (eta, radius))
